@@ -529,20 +529,21 @@ def c11_jobs(tier):
                 cfgs.append(('off-but-%s' % x.lower(), ['-DA_HAVE_%s=1' % x]))
         for name, defs in cfgs:
             full = name in ('allon', 'alloff')
-            # the complete float sweep (2^32 patterns x 5 functions) runs in the two extreme configurations; single flips use the quick lattice
-            t = tier if full else 'quick'
-            jobs += grid_jobs('real-%s-%s' % (width, name), 'harness/real.cpp', src, t, 16 if full else 2, defs=defs + wd, libs=libs)
+            # the complete float sweep (2^32 patterns x 5 functions, about 9 CPU-minutes per configuration) runs in EVERY configuration of the
+            # thorough tier; the double lattice of the single-flip configurations stays the quick one
+            t = tier if (full or width == 'f32') else 'quick'
+            jobs += grid_jobs('real-%s-%s' % (width, name), 'harness/real.cpp', src, t, 16 if (full or (width == 'f32' and tier == 'thorough')) else 2, defs=defs + wd, libs=libs)
     return jobs
 
 
 CHECKS['C11'] = {
     'title': 'real special functions and reductions are accurate in every configuration', 'level': 'exploration', 'engine': 'grid', 'jobs': c11_jobs,
-    'rule': ('bounded-exhaustive enumeration against libquadmath. asinh, acosh, atanh, expm1, log1p: both the library fallback bodies (always compiled, called by symbol) and the names as bound by the build configuration; '
+    'rule': ('bounded-exhaustive enumeration against libquadmath (double build) / the host double libm (float build, univariate sweep). asinh, acosh, atanh, expm1, log1p: both the library fallback bodies (always compiled, called by symbol) and the names as bound by the build configuration; '
              'float width: ALL 2^32 bit patterns in thorough (a complete decision for that configuration), every pattern with the low 11 mantissa bits zero (2^21) in quick; double width: every (sign, exponent, top 6 / 10 mantissa bits) pattern; plus every branch constant of the fallbacks (sqrt eps, 1/sqrt eps, 2, 1, 1/2, eps) +-2 ulp. '
              'Error budget 8 eps x (1 + conditioning of the function for a half-ulp argument change); worst observed 1.3. atan2 (fallback and bound) on all pairs of a 60-value axis including exact axis points, RMIN, RMAX and magnitudes 2^+-1000; norm2 / hypot, norm3, norm and norm_ with strides 1..3 (gaps poisoned with huge values) including values whose squares over- or underflow: within 4-8 eps whenever the true norm is representable; '
              'polar / spherical conversions with round trips; sum, sum1, sum2, mean, dot and strided forms, copy, swap, fill, zero, push_fore/back(_), roll_fore/back(_) for EVERY length 0..6, strides 1..3 (stride pairs for dot_/copy_), cache / shift lengths 0..7 with small-integer contents (exact comparison) and guard cells. '
-             'Configurations: quick = every real switch on / every switch off x {double, float}; thorough adds each of the 7 real switches flipped alone from each extreme. distinct_nontrivial counts evaluations with a non-zero reference / more than one element.'),
-    'assumptions': ['libquadmath is the reference', 'signed zeros are not distinguished (the statement names quadrants and axes)', 'double-width univariate helpers are covered on the (sign, exponent, leading mantissa bits) lattice, not completely'],
+             'Configurations: quick = every real switch on / every switch off x {double, float}; thorough adds each of the 7 real switches flipped alone from each extreme (float: complete sweep in each of these 16 configurations too). distinct_nontrivial counts evaluations with a non-zero reference / more than one element.'),
+    'assumptions': ['libquadmath is the reference; for the univariate sweep of the float build the host double-precision libm (error 2^-29 float eps) is the reference, which makes the complete 2^32 sweep affordable', 'signed zeros are not distinguished (the statement names quadrants and axes)', 'double-width univariate helpers are covered on the (sign, exponent, leading mantissa bits) lattice, not completely'],
     'design_ref': '§4.C11', 'technique': 'complete enumeration of the float domain (2^32 bit patterns per function in thorough) and stated double lattices against quad-precision references; exact integer references for reductions and movers',
     'level_text': 'In the float configuration the five univariate helpers are decided completely (every bit pattern, fallback and bound); the double configuration on a lattice containing every exponent and every branch constant; atan2, norms and conversions on all pairs/triples of axes with extreme magnitudes; reductions and block movers on every small length/stride/shift combination with exact references.',
     'level_note': 'Trusted: libquadmath. Not covered: double arguments between lattice points; mixed switch configurations.',
